@@ -366,6 +366,7 @@ func gen(t *rapid.T) Case {
 	// ---- directory forest
 	tok := 0
 	first := true
+	lastSibling := map[string]string{}
 	var addNode func(parent string, d int)
 	addNode = func(parent string, d int) {
 		if tok >= 12 {
@@ -373,6 +374,12 @@ func gen(t *rapid.T) Case {
 		}
 		name := tokens[tok]
 		tok++
+		// sometimes a sibling whose name merely extends the previous sibling's name (api, apiv2):
+		// path-prefix tests without a separator boundary confuse the two
+		if prev := lastSibling[parent]; prev != "" && rapid.IntRange(0, 3).Draw(t, "prefixsibling") == 0 {
+			name = prev + "v2"
+		}
+		lastSibling[parent] = name
 		dir := name
 		if parent != "" {
 			dir = parent + "/" + name
